@@ -51,7 +51,11 @@ Judge1D(e) ==
         ELSE <<>>)
      ELSE IF <<e.text, orient>> \in ok THEN <<>>
      ELSE IF \E a \in ok : a[1] = e.text THEN Rej("symbol read with the wrong ORIENTATION", "other")
-     ELSE Rej("symbol read as something else than its content", "other")
+     ELSE Rej("symbol read as something else than its content",
+              \* the row decoder met the reversed row first and the answer is a UPC-E number whose check digit verifies
+              IF e.sym = "UPCE" /\ e.fmt = "UPC_E" /\ p.rot \in {180, 270} /\ orient = (IF p.rot = 180 THEN 0 ELSE 270)
+                 /\ TextVerifies("UPCE", e.text)
+              THEN "UPC-E: check-verifying reading of the reversed row by the width-normalising digit matcher" ELSE "other")
 
 Judge2D(e) ==
   LET p == PoseOf(e) IN
